@@ -164,6 +164,8 @@ struct Emission {
     cfg_running: bool,
     cfg_status: Option<St>,
     settled: bool,
+    /// The configuration (server running, client status) changed in a later frame.
+    cfg_changed_later: bool,
     /// Had the remote connection been up at the end of the emission frame?
     remote_up: bool,
     /// Trigger target that the client cannot map to a server entity (such an event is not sent).
@@ -315,6 +317,11 @@ impl C13Cell {
         // configuration at the end of the emission frame
         let status = Self::status(x);
         let remote_up = x.remote.is_some() && running;
+        for em in x.emissions.iter_mut().filter(|e| e.settled) {
+            if em.cfg_running != running || em.cfg_status != status {
+                em.cfg_changed_later = true;
+            }
+        }
         for em in x.emissions.iter_mut().filter(|e| !e.settled) {
             em.settled = true;
             em.cfg_running = running;
@@ -434,6 +441,21 @@ impl C13Cell {
                         "sent-without-connection",
                         format!("server event #{} was emitted by an app acting as a client but was put on the wire", em.n),
                     ));
+                } else if em.cfg_status == Some(St::Connected) && !em.cfg_changed_later && l != 0 {
+                    // a connected client has no local server: nothing is among the recipients
+                    // (only judged while the app stays a connected client: what a later status
+                    // change makes of a lingering event is not fixed by the property)
+                    return Err(self
+                        .v(
+                            "local-server-event",
+                            format!(
+                                "server event #{} was emitted while the app was a connected client (no local server); expected no local observation, got {l}",
+                                em.n
+                            ),
+                        )
+                        .feat("kind:server-on-client"));
+                } else if l > 1 {
+                    return Err(self.v("handled-twice", format!("server event #{} emitted while connecting: {l} local observations", em.n)));
                 }
             }
         }
@@ -551,6 +573,7 @@ impl Scenario for C13Cell {
                 cfg_running: false,
                 cfg_status: None,
                 settled: false,
+                cfg_changed_later: false,
                 remote_up: false,
                 unmapped_target: false,
             });
@@ -797,3 +820,316 @@ pub fn cells(tier: Tier) -> Vec<CellPlan> {
 }
 
 pub const RULE: &str = "all sequences (one operation per frame, <= r frames) of server start/stop, client status changes (between frames or inside PrepareSend, as a backend does), and emissions of client events/triggers and server events/triggers in every send mode (between frames or from an Update system), in the full and the dedicated-server build, under every event-buffer rotation regime; per event: number of local observations with the local-server identity and number of wire sends; non-trivial = at least one emission";
+
+// -- with a real transport: the example backend over loopback -----------------------------------
+//
+// The scenario above changes the connection status the way a backend would (in the `PrepareSend`
+// sets). This part lets an actual backend do it: two real Apps with the example backend over
+// loopback TCP, every history of emissions and connection closes over a few frames.
+
+pub mod backend {
+    use std::{collections::BTreeSet, time::Duration};
+
+    use bevy::prelude::*;
+    use bevy_replicon::prelude::*;
+    use bevy_replicon_example_backend::{ExampleClient, ExampleServer, RepliconExampleBackendPlugins};
+    use serde::{Deserialize, Serialize};
+    use serde_json::json;
+
+    use crate::{
+        check::{self, Outcome, Tier},
+        sim::guarded,
+    };
+
+    #[derive(Event, Serialize, Deserialize, Clone, Debug)]
+    struct BE(u32);
+    #[derive(Event, Serialize, Deserialize, Clone, Debug)]
+    struct BS(u32);
+
+    #[derive(Resource, Default)]
+    struct Got {
+        /// `FromClient<BE>` observed by this app: (sender is the local server, n)
+        from_client: Vec<(bool, u32)>,
+        /// `BS` observed by this app
+        server_events: Vec<u32>,
+    }
+
+    #[derive(Clone, Copy, Debug, PartialEq, Eq, Serialize, Deserialize)]
+    pub enum BOp {
+        Nop,
+        Emit,
+        /// The game closes the connection (removes the backend's resource) before the frame.
+        Close,
+        /// Emission and close before the same frame.
+        EmitClose,
+    }
+
+    fn app() -> App {
+        let mut app = App::new();
+        app.init_resource::<Time>().add_plugins((
+            RepliconPlugins.set(ServerPlugin { tick_policy: TickPolicy::EveryFrame, ..Default::default() }),
+            RepliconExampleBackendPlugins,
+        ));
+        app.add_client_event::<BE>(Channel::Ordered)
+            .add_server_event::<BS>(Channel::Ordered)
+            .init_resource::<Got>()
+            .add_systems(
+                Update,
+                |mut a: EventReader<FromClient<BE>>, mut b: EventReader<BS>, mut got: ResMut<Got>| {
+                    for e in a.read() {
+                        got.from_client.push((e.client == SERVER, e.event.0));
+                    }
+                    for e in b.read() {
+                        got.server_events.push(e.0);
+                    }
+                },
+            );
+        app.finish();
+        app.cleanup();
+        app
+    }
+
+    fn connect() -> Result<Option<(App, App)>, String> {
+        let mut server = app();
+        let mut client = app();
+        let socket = ExampleServer::new(0).map_err(|e| format!("bind: {e}"))?;
+        let port = socket.local_addr().map_err(|e| e.to_string())?.port();
+        let csock = ExampleClient::new(port).map_err(|e| format!("connect: {e}"))?;
+        server.insert_resource(socket);
+        client.insert_resource(csock);
+        for _ in 0..300 {
+            server.update();
+            client.update();
+            let has_client = {
+                let w = server.world_mut();
+                let mut q = w.query_filtered::<(), (With<ConnectedClient>, With<AuthorizedClient>)>();
+                q.iter(w).count() == 1
+            };
+            if has_client && client.world().resource::<RepliconClient>().is_connected() {
+                // let the handshake settle
+                for _ in 0..3 {
+                    server.update();
+                    client.update();
+                }
+                return Ok(Some((server, client)));
+            }
+            std::thread::sleep(Duration::from_millis(1));
+        }
+        Ok(None)
+    }
+
+    /// Runs `peer` for a while so that whatever is in flight arrives (arrival timing over
+    /// loopback is the kernel's): until `enough` holds or the patience runs out.
+    fn settle(peer: &mut App, enough: impl Fn(&Got) -> bool, patience_ms: u64) {
+        for i in 0..(patience_ms * 2).max(4) {
+            peer.update();
+            if i >= 3 && enough(peer.world().resource::<Got>()) {
+                break;
+            }
+            std::thread::sleep(Duration::from_micros(500));
+        }
+        // two more frames to catch duplicates
+        peer.update();
+        peer.update();
+    }
+
+    /// Client-side history: `Err` = violation text, `Ok(None)` = connection could not be set up in time.
+    pub fn client_history(ops: &[BOp]) -> Result<Option<u64>, (String, String)> {
+        let Some((mut server, mut client)) = connect().map_err(|e| ("socket".to_string(), e))? else { return Ok(None) };
+        let mut closed_at: Option<usize> = None;
+        let mut emitted: Vec<(u32, usize)> = Vec::new();
+        let mut must_remote: BTreeSet<u32> = BTreeSet::new();
+        for (i, op) in ops.iter().enumerate() {
+            if matches!(op, BOp::Emit | BOp::EmitClose) {
+                let n = i as u32 + 1;
+                client.world_mut().send_event(BE(n));
+                emitted.push((n, i));
+            }
+            if matches!(op, BOp::Close | BOp::EmitClose) && closed_at.is_none() {
+                client.world_mut().remove_resource::<ExampleClient>();
+                closed_at = Some(i);
+            }
+            client.update();
+            if *op == BOp::Emit && closed_at.is_none() {
+                must_remote.insert(i as u32 + 1);
+            }
+            let want = must_remote.clone();
+            settle(&mut server, |g| want.iter().all(|n| g.from_client.iter().any(|(_, m)| m == n)), 400);
+        }
+        for _ in 0..3 {
+            client.update();
+        }
+        settle(&mut server, |_| true, 4);
+        let local: Vec<(bool, u32)> = client.world().resource::<Got>().from_client.clone();
+        let remote: Vec<(bool, u32)> = server.world().resource::<Got>().from_client.clone();
+        for (n, i) in &emitted {
+            let l = local.iter().filter(|(_, m)| m == n).count();
+            let r = remote.iter().filter(|(_, m)| m == n).count();
+            let when = match closed_at {
+                None => "the connection stayed up".to_string(),
+                Some(c) if *i < c => format!("the connection was closed {} frame(s) later", c - i),
+                Some(c) if *i == c => "the connection was closed in the same frame".to_string(),
+                Some(c) => format!("the connection had been closed {} frame(s) earlier", i - c),
+            };
+            if l + r != 1 {
+                return Err(("backend-exactly-once".into(), format!("client event #{n} (emitted in frame {}; {when}) was handled {l} time(s) locally and {r} time(s) by the remote server; expected exactly one path", i + 1)));
+            }
+            if closed_at.is_none_or(|c| *i < c) && r != 1 {
+                return Err(("backend-wrong-path".into(), format!("client event #{n} was emitted while connected ({when}) but was handled locally instead of being sent")));
+            }
+            if closed_at.is_some_and(|c| *i > c) && l != 1 {
+                return Err(("backend-wrong-path".into(), format!("client event #{n} was emitted after the connection was closed but was not handled locally")));
+            }
+            if local.iter().any(|(is_server, m)| m == n && !is_server) {
+                return Err(("backend-wrong-sender".into(), format!("client event #{n} was handled locally without the local-server sender identity")));
+            }
+        }
+        Ok(Some((local.len() * 16 + remote.len()) as u64))
+    }
+
+    /// Server-side history: the listen server emits broadcasts and stops its transport.
+    pub fn server_history(ops: &[BOp]) -> Result<Option<u64>, (String, String)> {
+        let Some((mut server, mut client)) = connect().map_err(|e| ("socket".to_string(), e))? else { return Ok(None) };
+        let mut stopped_at: Option<usize> = None;
+        let mut emitted: Vec<(u32, usize)> = Vec::new();
+        let mut must_remote: BTreeSet<u32> = BTreeSet::new();
+        for (i, op) in ops.iter().enumerate() {
+            if matches!(op, BOp::Emit | BOp::EmitClose) {
+                let n = i as u32 + 1;
+                server.world_mut().send_event(ToClients { mode: SendMode::Broadcast, event: BS(n) });
+                emitted.push((n, i));
+            }
+            if matches!(op, BOp::Close | BOp::EmitClose) && stopped_at.is_none() {
+                server.world_mut().remove_resource::<ExampleServer>();
+                stopped_at = Some(i);
+            }
+            server.update();
+            if *op == BOp::Emit && stopped_at.is_none() {
+                must_remote.insert(i as u32 + 1);
+            }
+            let want = must_remote.clone();
+            settle(&mut client, |g| want.iter().all(|n| g.server_events.contains(n)), 400);
+        }
+        for _ in 0..3 {
+            server.update();
+        }
+        settle(&mut client, |_| true, 4);
+        let local: Vec<u32> = server.world().resource::<Got>().server_events.clone();
+        let remote: Vec<u32> = client.world().resource::<Got>().server_events.clone();
+        for (n, i) in &emitted {
+            let l = local.iter().filter(|m| *m == n).count();
+            let r = remote.iter().filter(|m| *m == n).count();
+            if l != 1 {
+                return Err(("backend-local-server-event".into(), format!("broadcast #{n} (emitted in frame {}) was observed {l} time(s) by the emitting listen server / singleplayer app; expected once", i + 1)));
+            }
+            if r > 1 {
+                return Err(("backend-exactly-once".into(), format!("broadcast #{n} reached the remote client {r} times")));
+            }
+            if stopped_at.is_none_or(|c| *i < c) && r != 1 {
+                return Err(("backend-not-sent".into(), format!("broadcast #{n} was emitted while the server was running with a connected client but never reached it")));
+            }
+            if stopped_at.is_some_and(|c| *i > c) && r != 0 {
+                return Err(("backend-sent-without-connection".into(), format!("broadcast #{n} was emitted after the server had stopped but reached the former client")));
+            }
+        }
+        Ok(Some((local.len() * 16 + remote.len()) as u64))
+    }
+
+    fn histories(len: usize) -> Vec<Vec<BOp>> {
+        let ops = [BOp::Nop, BOp::Emit, BOp::Close, BOp::EmitClose];
+        let mut all: Vec<Vec<BOp>> = vec![vec![]];
+        for _ in 0..len {
+            let mut next = Vec::new();
+            for h in &all {
+                for op in ops {
+                    // a second close has nothing to close
+                    if matches!(op, BOp::Close | BOp::EmitClose) && h.iter().any(|o| matches!(o, BOp::Close | BOp::EmitClose)) {
+                        continue;
+                    }
+                    let mut h2 = h.clone();
+                    h2.push(op);
+                    next.push(h2);
+                }
+            }
+            all = next;
+        }
+        all.retain(|h| h.iter().any(|o| matches!(o, BOp::Emit | BOp::EmitClose)));
+        all
+    }
+
+    pub fn part(tier: Tier, out: &mut Outcome) -> Result<(), crate::explore::MachineryError> {
+        let len = if tier.quick() { 3 } else { 4 };
+        let hs = histories(len);
+        let findings = check::load_findings();
+        let mut outcomes = BTreeSet::new();
+        let mut inconclusive = 0u64;
+        let mut seen = BTreeSet::new();
+        for (side, f) in [("client", client_history as fn(&[BOp]) -> Result<Option<u64>, (String, String)>), ("server", server_history)] {
+            for h in &hs {
+                let mut r = Ok(None);
+                for _attempt in 0..3 {
+                    r = guarded(|| f(h)).unwrap_or_else(|(m, l)| Err(("panic".into(), format!("panic: {m} ({l})"))));
+                    if !matches!(r, Ok(None)) {
+                        break;
+                    }
+                }
+                out.evaluations += 1;
+                out.transitions += h.len() as u64 * 8;
+                match r {
+                    Ok(None) => inconclusive += 1,
+                    Ok(Some(d)) => {
+                        out.nontrivial += 1;
+                        outcomes.insert((side, d));
+                    }
+                    Err((oracle, detail)) if oracle == "socket" => {
+                        return Err(crate::explore::MachineryError(format!("loopback sockets unavailable: {detail}")));
+                    }
+                    Err((oracle, detail)) => {
+                        out.nontrivial += 1;
+                        out.violation_total += 1;
+                        if !seen.insert((side, oracle.clone())) {
+                            continue;
+                        }
+                        let feats: BTreeSet<String> = [format!("side:{side}"), "cellkind:backend".to_string()].into();
+                        if let Some(k) = findings.findings.iter().find(|k| check::matches_known(k, "C13", &oracle, &feats)) {
+                            out.known_hits.push(format!("KNOWN-FINDING: property=C13 {}", k.what));
+                            continue;
+                        }
+                        let dir = std::path::Path::new(&check::verif_root()).join("replays").join("C13");
+                        let _ = std::fs::create_dir_all(&dir);
+                        let path = dir.join(format!("{:016x}.json", crate::explore::hash_of(&(side, &oracle, format!("{h:?}")))));
+                        let doc = json!({"property": "C13", "kind": "c13-backend", "side": side, "history": h,
+                            "violation": {"property": "C13", "oracle": oracle, "detail": detail, "features": feats}});
+                        std::fs::write(&path, serde_json::to_string_pretty(&doc).unwrap()).unwrap();
+                        out.new_violations.push(path);
+                    }
+                }
+            }
+        }
+        out.states += outcomes.len() as u64;
+        out.distinct_nontrivial += outcomes.len() as u64;
+        out.distinct_outcomes += outcomes.len() as u64;
+        out.assumptions.push("C13 backend part: arrival timing over loopback TCP is the kernel's; a connection that cannot be set up within the retry budget makes the history inconclusive, never a violation".into());
+        out.reports.push(json!({"cell": "c13-backend-loopback", "histories_per_side": hs.len(), "frames_per_history": len, "sides": ["client closes", "server stops"],
+            "inconclusive_timing": inconclusive, "distinct_outcomes": outcomes.len(), "exhaustive_within_bound": true}));
+        eprintln!("  cell c13-backend-loopback          histories {:>6} inconclusive {inconclusive} outcomes {}", hs.len() * 2, outcomes.len());
+        Ok(())
+    }
+
+    pub fn replay(doc: &serde_json::Value) -> i32 {
+        let h: Vec<BOp> = serde_json::from_value(doc["history"].clone()).expect("history");
+        let side = doc["side"].as_str().unwrap_or("client");
+        println!("side {side} history {h:?}");
+        let r = if side == "client" { client_history(&h) } else { server_history(&h) };
+        match r {
+            Ok(_) => {
+                println!("replay passes: no violation");
+                0
+            }
+            Err((oracle, detail)) => {
+                println!("VIOLATION property=C13 replay=<file> oracle={oracle} :: {detail}");
+                1
+            }
+        }
+    }
+}
